@@ -190,6 +190,7 @@ def run_unit(unit: Unit, repo_root: Optional[str] = None, mutate: Optional[Calla
             else:
                 raise Unsupported(f"function {q} not found in the repository (renamed or removed)")
         unit.fn(ip, th)
+        res["functions"].update(getattr(ip, "extra_functions", {}))  # e.g. functions of the interpreter's own asyncio/locks.py
         res["stats"] = {"feasibility_checks": ip.feas_checks, "statements": ip.stmt_count, "constructs": sorted(ip.seen_constructs)}
         res["obligations"] = discharge_all(ip.obligations, want_smt2)
     except Unsupported as e:
